@@ -34,8 +34,11 @@ func c05ServerRun(e *Env) {
 		runs    int
 		replies []*WMsg
 		sent    int
+		// why the peer's connection object was replaced between the first copy and a later one ("" = it was not)
+		replaced string
 	}
 	var reqs []*reqState
+	var peerAddrOf func(i int) string
 	router := mux.NewRouter()
 	router.DefaultHandle(mux.HandlerFunc(func(rw mux.ResponseWriter, r *mux.Message) {
 		if r.Code() == codes.Empty {
@@ -52,10 +55,20 @@ func c05ServerRun(e *Env) {
 		e.Notef("handler runs for request %d (run #%d)", n, k)
 		_ = rw.SetResponse(codes.Content, message.TextPlain, bytes.NewReader([]byte(fmt.Sprintf("reply-%d-run%d", n, k))))
 	}))
+	// the inactivity monitor of the server-side connections: practically off, or the 16 s of the default configuration
+	idle := []time.Duration{100000 * time.Second, 16 * time.Second}[t.Choose(2)]
 	var ticks []func(now time.Time) bool
 	srv := udpServer.New(options.WithMux(router), c10UDPSeam{mid: int32(t.Choose(65536)), tick: func(f func(now time.Time) bool) { ticks = append(ticks, f) }},
 		options.WithErrors(func(error) {}),
-		options.WithInactivityMonitor(100000*time.Second, func(c *udpClient.Conn) { _ = c.Close() }))
+		options.WithInactivityMonitor(idle, func(c *udpClient.Conn) {
+			e.Notef("inactivity monitor closes the connection of %s", c.RemoteAddr())
+			for _, r := range reqs {
+				if peerAddrOf(r.peer) == c.RemoteAddr().String() { // (takes precedence: this close certainly drops the object)
+					r.replaced = "closed-by-inactivity-monitor"
+				}
+			}
+			_ = c.Close()
+		}))
 	go func() { _ = srv.Serve(l) }()
 	e.OnCleanup(func() { srv.Stop(); _ = l.Close() })
 	e.Real("udp/server.Server (peer table on a wildcard-bound socket, NewConn)", "udp/client.Conn (response cache per connection)")
@@ -80,7 +93,8 @@ func c05ServerRun(e *Env) {
 			}
 		})
 	}
-	e.Logf("cfg peers=%d", nPeers)
+	peerAddrOf = func(i int) string { return peers[i].addr }
+	e.Logf("cfg peers=%d idle=%v", nPeers, idle)
 	deliverAll := func() {
 		for _, d := range dn.PendingList() {
 			dn.Take(d)
@@ -95,7 +109,19 @@ func c05ServerRun(e *Env) {
 	}
 	newConnDone := make([]bool, nPeers)
 	for step := 0; step < 4+t.Choose(10) && e.Budget(); step++ {
-		switch t.Weighted(4, 4, 2, 2) {
+		switch t.Weighted(4, 4, 2, 2, 1) {
+		case 4: // line noise, a broken sender, a spoofer: something that is no CoAP message arrives from a peer's address
+			p := t.Choose(nPeers)
+			e.Fault("dgram.malformed")
+			e.Probe("peer.malformedDatagram")
+			e.Logf("a malformed datagram arrives from the address of peer %d", p)
+			for _, r := range reqs {
+				if r.peer == p && r.replaced == "" {
+					r.replaced = "malformed-datagram"
+				}
+			}
+			dn.Inject(UDPAddrFrom(peers[p].addr), reach, [][]byte{{0x49, 0x02, 0x12, 0x34}, {0x40}, {0xff, 0xff, 0xff}}[t.Choose(3)])
+			deliverAll()
 		case 0: // a new request
 			if len(reqs) >= 6 {
 				continue
@@ -159,7 +185,15 @@ func c05ServerRun(e *Env) {
 			break // copies may legitimately be fresh again; C05's main scenario covers the lifetime boundary
 		}
 		if r.runs > 1 {
-			e.Violate("C05.R1", "handler-re-executed:server-connection", "request %d of peer %d (mid %d) was sent %d times and the handler ran %d times", n, r.peer, r.mid, r.sent, r.runs)
+			sig, why := "handler-re-executed:server-connection", ""
+			if r.replaced != "" {
+				// the de-duplication state lives in the connection object: whatever makes the server drop that object
+				// within the exchange lifetime makes it forget the request
+				sig += ":" + r.replaced
+				why = " (" + r.replaced + " in between)"
+			}
+			e.Violate("C05.R1", sig, "request %d of peer %d (mid %d) was sent %d times and the handler ran %d times%s", n, r.peer, r.mid, r.sent, r.runs, why)
+			continue
 		}
 		for i := 1; i < len(r.replies); i++ {
 			a, b := r.replies[0], r.replies[i]
